@@ -2,6 +2,7 @@
 //! is bisected through the real instruction to the accept/reject boundary, a window and a grid are
 //! executed, and every verdict is judged two-sidedly by the exact reference health (health.rs).
 
+use super::histcommon::spec_b6;
 use super::Tier;
 use crate::act::{self, Action};
 use crate::evidence::{Found, Outcome};
@@ -51,6 +52,10 @@ pub enum Emode {
     TwoLiabsPlainKeyAbove,
     /// ... and sorts after the first
     TwoLiabsPlainKeyBelow,
+    /// two borrowed banks; the e-mode admin asks for the first one's table to list the collateral's tag twice,
+    /// with another entry in between (if the program refuses, the table without the repetition is installed);
+    /// the second has no table: no benefit
+    TwoLiabsDupTag,
 }
 
 #[derive(Clone, Debug, serde::Serialize, serde::Deserialize)]
@@ -171,11 +176,13 @@ pub fn build(c: &Cfg, tag: &str) -> Option<Built> {
             return None;
         }
         let e_main = match c.emode {
-            Emode::Raises | Emode::TwoLiabsMin | Emode::TwoLiabsDisjoint | Emode::TwoLiabsPlainKeyAbove | Emode::TwoLiabsPlainKeyBelow => entry(7, 0.9, 0.94),
+            Emode::Raises | Emode::TwoLiabsMin | Emode::TwoLiabsDisjoint | Emode::TwoLiabsPlainKeyAbove | Emode::TwoLiabsPlainKeyBelow | Emode::TwoLiabsDupTag => entry(7, 0.9, 0.94),
             Emode::BelowBank => entry(7, 0.1, 0.2),
             Emode::Off => unreachable!(),
         };
-        if !tx(&mut s, ix::configure_bank_emode(g, w.roles.emode, w.banks[li].key, 0, entries(&[e_main])), w.roles.emode) {
+        let dup_installed = c.emode == Emode::TwoLiabsDupTag && tx(&mut s, ix::configure_bank_emode(g, w.roles.emode, w.banks[li].key, 0, entries(&[e_main, entry(9, 0.5, 0.6), e_main])), w.roles.emode);
+        let rest: Vec<EmodeEntry> = if c.emode == Emode::TwoLiabsDupTag { vec![e_main, entry(9, 0.5, 0.6)] } else { vec![e_main] };
+        if !dup_installed && !tx(&mut s, ix::configure_bank_emode(g, w.roles.emode, w.banks[li].key, 0, entries(&rest)), w.roles.emode) {
             if std::env::var("VERIF_C04_DEBUG").is_ok() { eprintln!("c04 build failed at line 168: {:?}", c); }
             return None;
         }
@@ -217,7 +224,7 @@ pub fn build(c: &Cfg, tag: &str) -> Option<Built> {
             }
         }
     }
-    if matches!(c.emode, Emode::TwoLiabsMin | Emode::TwoLiabsDisjoint | Emode::TwoLiabsPlainKeyAbove | Emode::TwoLiabsPlainKeyBelow) {
+    if matches!(c.emode, Emode::TwoLiabsMin | Emode::TwoLiabsDisjoint | Emode::TwoLiabsPlainKeyAbove | Emode::TwoLiabsPlainKeyBelow | Emode::TwoLiabsDupTag) {
         // a small second debt so that two borrowed banks take part in the e-mode reconciliation
         if !act::apply(&w, &mut s, &Action::Borrow { u: 0, b: l2i, amt: 1_000_000 }).committed {
             if std::env::var("VERIF_C04_DEBUG").is_ok() { eprintln!("c04 build failed at line 206: {:?}", c); }
@@ -549,7 +556,7 @@ pub fn configs(tier: Tier) -> Vec<Cfg> {
                             }
                         }
                     }
-                    for &emode in &[Emode::TwoLiabsPlainKeyAbove, Emode::TwoLiabsPlainKeyBelow] {
+                    for &emode in &[Emode::TwoLiabsPlainKeyAbove, Emode::TwoLiabsPlainKeyBelow, Emode::TwoLiabsDupTag] {
                         for second in [false, true] {
                             v.push(Cfg { w_init, price_e8, ema, conf_pp, state: CollState::Normal, second, liab_w: 1.25, liab_conf_pp: 0, emode, withdraw, many: false, no_main: false });
                         }
@@ -567,6 +574,78 @@ pub fn configs(tier: Tier) -> Vec<Cfg> {
         }
     }
     v
+}
+
+/// Isolated-tier exclusivity: an account with ample collateral owes bank X and asks to borrow from bank Y, for every
+/// ordered pair (X, Y) of three isolated-tier and three ordinary banks (so that the isolated bank's address lies above
+/// and below the other's - positions are kept sorted by bank address). Whatever is accepted must leave an
+/// isolated-tier debt as the account's only debt.
+fn isolated_matrix(found: &mut Vec<Found>, classes: &mut BTreeMap<String, u64>) -> u64 {
+    let mut banks = vec![];
+    let mut coll = spec_b6();
+    coll.label = "ICOL".into();
+    coll.mint = MintSpec::spl("icol", 6);
+    banks.push(coll);
+    for i in 0..3 {
+        let mut iso = spec_b6();
+        iso.label = format!("IISO{i}");
+        iso.mint = MintSpec::spl(&format!("iiso{i}"), 6);
+        iso.config.risk_tier = marginfi_type_crate::types::RiskTier::Isolated;
+        iso.config.asset_weight_init = I80F48::ZERO;
+        iso.config.asset_weight_maint = I80F48::ZERO;
+        banks.push(iso);
+    }
+    for i in 0..3 {
+        let mut n = spec_b6();
+        n.label = format!("INRM{i}");
+        n.mint = MintSpec::spl(&format!("inrm{i}"), 6);
+        banks.push(n);
+    }
+    let (w, mut s) = build_world(&WorldSpec::new("C04ISO", banks, &["u0", "seeder"]));
+    for b in 1..7 {
+        assert!(act::apply(&w, &mut s, &Action::Deposit { u: 1, b, amt: 1_000_000_000, up_to_limit: None }).committed);
+    }
+    assert!(act::apply(&w, &mut s, &Action::Deposit { u: 0, b: 0, amt: 100_000_000_000, up_to_limit: None }).committed);
+    let is_iso = |b: usize| (1..4).contains(&b);
+    let mut execs = 0u64;
+    let (mut above, mut below) = (0u64, 0u64);
+    for x in 1..7usize {
+        for y in 1..7usize {
+            if x == y {
+                continue;
+            }
+            let mut t = s.clone();
+            if !act::apply(&w, &mut t, &Action::Borrow { u: 0, b: x, amt: 1_000_000 }).committed {
+                *classes.entry("isolated_matrix:first_borrow_refused".into()).or_insert(0) += 1;
+                continue;
+            }
+            let r = act::apply(&w, &mut t, &Action::Borrow { u: 0, b: y, amt: 2_000_000 });
+            execs += 2;
+            let mixed = is_iso(x) || is_iso(y);
+            if mixed {
+                let (ik, ok_) = if is_iso(x) { (w.banks[x].key, w.banks[y].key) } else { (w.banks[y].key, w.banks[x].key) };
+                if !(is_iso(x) && is_iso(y)) {
+                    if ik > ok_ { above += 1 } else { below += 1 }
+                }
+            }
+            *classes.entry(format!("isolated_matrix:{}:{}", if mixed { "with_isolated_debt" } else { "ordinary_debts" }, if r.committed { "accepted" } else { "refused" })).or_insert(0) += 1;
+            if r.committed {
+                let h = health::health(&t, &w.users[0].account, Req::Initial).unwrap();
+                if h.isolated_violation {
+                    found.push(Found {
+                        clause: "C04.isolated_exclusive".into(),
+                        sig: format!("isolated_matrix:{}", if is_iso(x) && is_iso(y) { "two_isolated" } else if w.banks[x].key > w.banks[y].key { "first_above" } else { "first_below" }),
+                        detail: format!("owing {} ({}), a borrow from {} ({}) was accepted: an isolated-tier debt is no longer the account's only debt (bank addresses: first {} second)", w.banks[x].label, if is_iso(x) { "isolated tier" } else { "ordinary" }, w.banks[y].label, if is_iso(y) { "isolated tier" } else { "ordinary" }, if w.banks[x].key > w.banks[y].key { ">" } else { "<" }),
+                        replay: json!({"model": "C04iso", "first": x, "second": y}),
+                    });
+                }
+            }
+        }
+    }
+    if above == 0 || below == 0 {
+        *classes.entry("isolated_matrix:only_one_address_order".into()).or_insert(0) += 1;
+    }
+    execs
 }
 
 pub fn run(tier: Tier) -> Outcome {
@@ -597,6 +676,10 @@ pub fn run(tier: Tier) -> Outcome {
     for (_, r) in res {
         o.found.extend(r.found);
     }
+    execs += isolated_matrix(&mut o.found, &mut classes);
+    if classes.contains_key("isolated_matrix:only_one_address_order") || !classes.contains_key("isolated_matrix:with_isolated_debt:refused") || !classes.contains_key("isolated_matrix:ordinary_debts:accepted") {
+        o.machinery.push("vacuity guard: the isolated-tier matrix did not see both address orders, a refusal and an ordinary acceptance".into());
+    }
     if samples.is_empty() {
         samples.push(json!({"cfg": cfgs[0]}));
     }
@@ -607,7 +690,7 @@ pub fn run(tier: Tier) -> Outcome {
     o.coverage = json!({
         "evaluations": execs,
         "distinct_nontrivial": health_limited,
-        "rule": "complete product of configuration menus (collateral weight x price/EMA ratio x confidence x {normal, reduce-only, isolated, stale oracle, collateral-value cap; plus staked collateral and collateral held through Kamino / Solend / Drift at exchange rate 1.1} x second collateral x liability weight x liability confidence x e-mode variant x {borrow, withdraw}) plus 16-position portfolios; per configuration the amount is bisected through the real instruction, then boundary +-8 and a 32-point grid are executed; every acceptance is judged against the exact reference health of its real post-state, the boundary rejection against the reference health one unit further; distinct_nontrivial = configurations whose boundary is decided by the health check (interior boundary, rejection code RiskEngineInitRejected)",
+        "rule": "complete product of configuration menus (collateral weight x price/EMA ratio x confidence x {normal, reduce-only, isolated, stale oracle, collateral-value cap; plus staked collateral and collateral held through Kamino / Solend / Drift at exchange rate 1.1} x second collateral x liability weight x liability confidence x e-mode variant x {borrow, withdraw}) plus 16-position portfolios, plus the isolated-tier matrix (owing bank X, borrow from bank Y for every ordered pair of three isolated-tier and three ordinary banks, i.e. with the isolated bank's address above and below the other's: an accepted borrow must leave an isolated-tier debt as the only debt); per configuration the amount is bisected through the real instruction, then boundary +-8 and a 32-point grid are executed; every acceptance is judged against the exact reference health of its real post-state, the boundary rejection against the reference health one unit further; distinct_nontrivial = configurations whose boundary is decided by the health check (interior boundary, rejection code RiskEngineInitRejected)",
         "configurations": cfgs.len(),
         "exhaustive": true,
         "max_allowance_dollars": max_allow,
